@@ -8,6 +8,7 @@ package tree
 import (
 	"fmt"
 	"net/http"
+	"slices"
 	"sync"
 
 	"github.com/issue9/errwrap"
@@ -114,7 +115,20 @@ func (tree *Tree[T]) Add(pattern string, h T, ms []types.Middleware[T], methods 
 		defer tree.locker.Unlock()
 	}
 
-	n, err := tree.getNode(pattern)
+	if len(methods) == 0 {
+		methods = AnyMethods
+	}
+
+	// 在修改节点之前验证语法以及所有的请求方法，保证出错时不会改变现有的路由。
+	segs, err := tree.interceptors.Split(pattern)
+	if err != nil {
+		return err
+	}
+	if err := tree.checkMethods(pattern, methods); err != nil {
+		return err
+	}
+
+	n, err := tree.node.getNode(segs)
 	if err != nil {
 		return err
 	}
@@ -123,10 +137,29 @@ func (tree *Tree[T]) Add(pattern string, h T, ms []types.Middleware[T], methods 
 		n.handlers = make(map[string]T, handlersSize)
 	}
 
-	if len(methods) == 0 {
-		methods = AnyMethods
-	}
 	return n.addMethods(h, pattern, ms, methods...)
+}
+
+// 检测 methods 是否都能添加到 pattern 上
+func (tree *Tree[T]) checkMethods(pattern string, methods []string) error {
+	var handlers map[string]T
+	if n := tree.Find(pattern); n != nil {
+		handlers = n.handlers
+	}
+
+	for i, m := range methods {
+		if m == http.MethodOptions || m == http.MethodHead || (tree.hasTrace && m == http.MethodTrace) {
+			return fmt.Errorf("无法手动添加 OPTIONS/HEAD/TRACE 请求方法")
+		}
+		if _, found := methodIndexMap[m]; !found {
+			return fmt.Errorf("该请求方法 %s 不被支持", m)
+		}
+
+		if _, found := handlers[m]; found || slices.Index(methods[:i], m) >= 0 {
+			return fmt.Errorf("该请求方法 %s 已经存在", m)
+		}
+	}
+	return nil
 }
 
 func (tree *Tree[T]) checkAmbiguous(pattern string) error {
